@@ -412,7 +412,11 @@ class Interp:
         return Ref(loc, path, True)
 
     def new_object(self, st, p):
-        pt = getattr(p, 'pointee', None)
+        f = getattr(self, 'object_factory', None)
+        if f is not None:
+            v = f(p)
+            if v is not None:
+                return v
         return Opaque('*' + p.key())
 
     # ------------------------------------------------------------------ places
@@ -1182,6 +1186,9 @@ class Interp:
         t = bit[0]
         if t == 'v':
             self.apply_env(st, {(bit[1], bit[2]): (1 - val) if bit[3] else val})
+            h = getattr(self, 'refine_hook', None)
+            if h is not None and not st.dead:
+                h(self, st, ('bit', bit[1], bit[2], (1 - val) if bit[3] else val))
             return not st.dead
         if t == 'p':
             truth = (1 - val) if bit[3] else val
@@ -1190,6 +1197,10 @@ class Interp:
                 return False
             st.facts[k] = truth
             kind, payload = bit[1], bit[2]
+            if kind == 'eq0' and not truth:
+                h = getattr(self, 'refine_hook', None)
+                if h is not None:
+                    h(self, st, ('nonzero', payload))
             if kind == 'eq0':
                 if truth:
                     env = {}
@@ -1647,6 +1658,7 @@ class Interp:
                 s2 = st.clone() if val == 0 else st
                 if self.assume(s2, d.bits[0], val) and not s2.dead:
                     s2.notes.append((fmt_bit(d.bits[0]), val, t['loc']))
+                    s2.events.append(('branch', d.bits[0], val, t['loc'], fr.f['name']))
                     outs += self.exec_block(fr, tgt, s2, visiting)
             return outs
         # multiway on a wider value
@@ -1884,6 +1896,7 @@ class Interp:
             vs = self.enum_variants(rt)
             for i, (vn, d, nf) in enumerate(vs):
                 s2 = st.clone() if i < len(vs) - 1 else st
+                s2.events.append(('opaque-result', tag, vn))
                 if nf:
                     argi = 0 if (rt['name'].endswith('Option') or vn == 'Ok') else 1
                     inner_t = rt['args'][argi]
